@@ -9,19 +9,19 @@ CHECKS = {
  # id: (category, design_ref, technique, text, note)
  "C01": ("model_checking", "DESIGN.md 4/C01",
    "bounded exhaustive operation-sequence exploration of the real Client/Handler against a reference model (the sent slice)",
-   "Every message sequence up to the stated length over an alphabet of boundary shapes (zero-value, small, 512 B pool seed +-1, compress-min-bytes +-1, 8 MiB recycle cap +-1) is run through real clients and handlers in every protocol x codec x compression x RPC kind x HTTP version x request-window configuration, with one shared Client/Handler per configuration so earlier calls leave state behind; the oracle is equality with the sent slice plus a clean end of stream. Exhaustive within the bounds, so it decides the property for all small histories rather than a sample.",
+   "Every message sequence up to the stated length over an alphabet of boundary shapes (zero-value, small, 512 B pool seed +-1, compress-min-bytes +-1, 8 MiB recycle cap +-1) is run through real clients and handlers in every protocol x codec x compression x RPC kind x HTTP version x request-window configuration, with one shared Client/Handler per configuration so earlier calls leave state behind; the oracle is equality with the sent slice plus a clean end of stream and a request that still goes to the client's own URL (the environment rewrites the URL of each request it is handed). Messages with nested sub-messages (structpb.Struct, fresh and re-sent after an in-place update) are echoed through unary and bidi calls. The thorough tier repeats a reduced batch of every configuration over the real net/http stack (HTTP/1.1 and TLS HTTP/2). Exhaustive within the bounds, so it decides the property for all small histories rather than a sample.",
    "memhttp is a legal stand-in for net/http (cross-checked on real loopback h1/h2 in the thorough tier); payload codecs proto/protojson trusted; sequence length and payload sizes bounded"),
  "C14": ("model_checking", "DESIGN.md 4/C14",
    "stateless model checking of the real client/handler under a controlled scheduler (testing/synctest bubble + yield points), delay-bounded exhaustive schedule enumeration, against a two-process FIFO reference model",
-   "Every admissible pair of a client program over {Send, CloseRequest, Receive, CloseResponse, cancel} and a handler program {receive i, send j, drain?, nil|error}, in each protocol and request-window mode, is executed on the real library under a scheduler that owns every interleaving decision; every schedule with at most d delays at the library's and the environment's yield points is enumerated (d=1 quick, d=2 thorough - the property's 'every single point, every pair'). Oracles: no deadlock (decided by quiescence, not wall-clock), no library goroutine left, response body closed, handler sees EOF after CloseRequest, Sends after the end fail with io.EOF, Receive sequence equals the reference model, errors are sticky.",
+   "Every admissible pair of a client program over {Send, CloseRequest, Receive, CloseResponse, cancel} and a handler program {receive i, send j, drain?, nil|error}, in each protocol and request-window mode, is executed on the real library under a scheduler that owns every interleaving decision; every schedule with at most d delays at the library's and the environment's yield points is enumerated (d=1 quick, d=2 for short programs in thorough - the property's 'every single point, every pair'), around the non-preemptive default scheduler and, for eager-window scenarios, around a round-robin one; programs may cancel first; an extra dimension lets Receive fail on a message above the client's read limit while the stream is open (one known finding: gRPC drains to the trailers and deadlocks). Oracles: no deadlock (decided by quiescence, not wall-clock), no library goroutine left, response body closed, handler sees EOF after CloseRequest, Sends after the end fail with io.EOF, Receive sequence equals the reference model, errors are sticky.",
    "memhttp models the RoundTripper/Handler contract; schedules inside the real net/http stack are not explored; statement-granular sequentially consistent interleavings; delay bound and program length bounded"),
  "C15": ("model_checking", "DESIGN.md 4/C15",
    "stateless model checking under a controlled scheduler with cancellation / fake-clock expiry as scheduler choices, delay-bounded exhaustive enumeration of the cancellation instant",
-   "The cancel() call (thread ~x) or the deadline expiry (fake clock of the synctest bubble, event ~clock) is placed at every yield point of every client program - before the call, between operations, and while a Send or Receive is blocked - against handlers that wait for ctx.Done and return ctx.Err. Every operation that fails after the event must carry canceled / deadline_exceeded (Send may return the io.EOF stream-closed error), Send/Receive started afterwards never succeed, the handler's context is cancelled, no goroutine is left. A sequential family checks that handlers returning bare or wrapped context errors convey the same code.",
+   "The cancel() call (thread ~x) or the deadline expiry (fake clock of the synctest bubble, event ~clock), each also with a caller-supplied cause (WithCancelCause / WithTimeoutCause), is placed at every yield point of every client program - before the call, between operations, and while a Send or Receive is blocked - against handlers that wait for ctx.Done and return ctx.Err. Every operation that fails after the event must carry canceled / deadline_exceeded (Send may return the io.EOF stream-closed error), Send/Receive started afterwards never succeed, the handler's context is cancelled, no goroutine is left. A sequential family checks that handlers returning bare or wrapped context errors convey the same code.",
    "memhttp's cancellation behaviour mirrors net/http's documented contract; transports whose abort error does not wrap the context error are out of scope; delay bound 1 (the event itself) in quick, 2 in thorough"),
  "C13": ("model_checking", "DESIGN.md 4/C13",
    "stateless model checking of concurrent calls on one shared Client/Handler under a controlled scheduler with deterministic poisoned buffer pools, delay-bounded exhaustive schedule enumeration, differential oracle against solo runs",
-   "Two (one scenario: three) threads run complete calls with call-tagged payloads on a single shared Client and Handler whose sync.Pools are replaced by deterministic LIFO stacks that poison released buffers, so any sharing of scratch state, use-after-Put or cross-call mix-up becomes a deterministic observable difference; plus sender||receiver on one bidi stream. Every schedule within the delay bound over ~300 yield points per execution (every statement of the duplex call, every pool/compressor/codec/IO operation, every membrane event) is executed; each call must observe exactly what it observes alone, no poisoned byte may be visible, retained values must stay intact.",
+   "Two (one scenario: three) threads run complete calls with call-tagged payloads on a single shared Client and Handler whose sync.Pools are replaced by deterministic LIFO stacks that poison released buffers, so any sharing of scratch state, use-after-Put or cross-call mix-up becomes a deterministic observable difference; plus sender||receiver on one bidi stream. Every schedule within the delay bound of two deterministic default schedulers (non-preemptive run-to-block and round-robin at every yield point) over ~450 yield points per execution (every statement of the duplex call, every pool/compressor/codec/IO operation, every membrane event) is executed, also after a corrupt compressed call went through the shared handler; each call must observe what the handler program answers and exactly what it observes alone, every request must go to the client's own URL, no poisoned byte may be visible, messages and error metadata handed to user code (including the io.EOF end-of-stream error) must stay intact.",
    "sequentially consistent, statement-granular interleavings only: the clause 'no unsynchronised memory access' is decided only as far as such interleavings make a difference observable; a free-running -race pass is supplementary; delay bound 1 quick / 2 thorough"),
  "C02": ("model_checking", "DESIGN.md 4/C02",
    "bounded exhaustive input/configuration enumeration on the real client and handler (error code x message x details x metadata x position x protocol x codec x RPC kind)",
@@ -41,7 +41,7 @@ CHECKS = {
    "memhttp reports what escapes ServeHTTP as net/http's server would see it"),
  "C08": ("model_checking", "DESIGN.md 4/C08",
    "bounded exhaustive configuration + history enumeration on real clients/handlers with a wire-level oracle (recorded exchange decompressed by reference implementations)",
-   "Every registration order of every subset of three custom algorithms (plus the built-in gzip) on the client and on the handler, every send-compression choice including unregistered ones, compress-min-bytes with sizes around the threshold, raw requests with every (encoding, accept-encoding) header pair of a menu, and every history of valid/corrupt compressed calls up to length 3 (quick) / 4 (thorough) through one shared Client/Handler, in every protocol. The oracle reads the recorded bytes: response algorithm supported and offered, the client's first-listed mutual one when the request was identity, unknown request algorithm -> unimplemented listing the supported set without running user code, small messages unflagged, every flagged message decompresses to the sent bytes, valid calls after corrupt ones are unaffected.",
+   "Every registration order of every subset of three custom algorithms (plus the built-in gzip) on the client and on the handler, every send-compression choice including unregistered ones, compress-min-bytes with sizes around the threshold, raw requests with every (encoding, accept-encoding) header pair of a menu, every history of valid/corrupt compressed calls up to length 3 (quick) / 4 (thorough) through one shared Client/Handler, and - under the controlled scheduler, delay bound 1 around two default schedulers - two valid compressed calls running concurrently after a corrupt one (wrong CRC trailer / truncated data) went through the shared handler, in every protocol. The oracle reads the recorded bytes: response algorithm supported and offered, the client's first-listed mutual one when the request was identity, unknown request algorithm -> unimplemented listing the supported set without running user code, small messages unflagged, every flagged message decompresses to the sent bytes, valid calls after corrupt ones are unaffected.",
    "custom algorithms are magic-byte XOR codecs; quick visits a third of the 16x16 order pairs (rotating), thorough all"),
  "C09": ("model_checking", "DESIGN.md 4/C09",
    "bounded exhaustive enumeration of limits x sizes x positions x protocols x sides on real clients/handlers plus hostile raw peers with an allocation probe",
@@ -73,11 +73,11 @@ CHECKS = {
    "requests are handed to ServeHTTP directly; unknown request flags, trailing bytes after a unary message and zero-length payloads under any codec/flag are recorded but not judged"),
  "C03": ("fault_enumeration", "DESIGN.md 4/C03",
    "exhaustive enumeration of environment answers (read segmentations) over a corpus of valid bodies replayed to the real client/handler, differential oracle against one-piece delivery",
-   "A corpus of valid request and response bodies captured from real peers (the library and the reference encoder) in all three protocols is replayed to the real client and handler under every segmentation into non-empty reads - all 2^(n-1) for bodies up to 12 (quick) / 16 (thorough) bytes; every choice of up to 2 / 3 cut positions and all strides 1..8 for longer ones; every position around each envelope prefix and payload boundary for 70 KiB bodies - each with EOF on a separate read and with EOF returned together with the last data. The observation (messages, end of stream or error code and text, metadata) must equal the one-piece delivery; a stuck read loop is a deterministic deadlock in the bubble.",
+   "A corpus of valid request and response bodies captured from real peers (the library and the reference encoder) in all three protocols is replayed to the real client and handler under every segmentation into non-empty reads - all 2^(n-1) for bodies up to 12 (quick) / 16 (thorough) bytes; every choice of up to 2 / 3 cut positions and all strides 1..8 for longer ones; every position around each envelope prefix and payload boundary for 70 KiB bodies - each with EOF on a separate read and with EOF returned together with the last data; every body is also replayed under a read limit one below and exactly at its largest frame (oversize / discard path). The observation (messages, end of stream or error code and text, metadata) must equal the one-piece delivery; a stuck read loop is a deterministic deadlock in the bubble.",
    "segmentation is applied at the io.Reader the library reads from; the corpus is finite (about 60 bodies quick, 66 thorough)"),
  "C04": ("fault_enumeration", "DESIGN.md 4/C04",
    "exhaustive crash-point / fault enumeration (every cut offset x terminal answer x placement x trailer presence) over the corpus of valid bodies replayed to the real client/handler",
-   "Every body of the corpus is cut at every byte offset 0..len (every offset around prefixes and boundaries for 70 KiB bodies) and ended with a clean EOF, io.ErrUnexpectedEOF or a transport error, delivered on a separate read or together with the last data, with the gRPC HTTP trailers delivered or dropped. A response cut before its terminator (status trailers, gRPC-Web trailer frame, Connect end-of-stream envelope, complete unary body) must fail the call with a coded non-OK error, the delivered messages must be a prefix of those sent, nothing may hang or panic, and the complete body must give the uncut outcome; a request body that failed or stopped inside an envelope must never give the handler a clean end of stream nor be answered OK.",
+   "Every body of the corpus is cut at every byte offset 0..len (every offset around prefixes and boundaries for 70 KiB bodies) and ended with a clean EOF, io.ErrUnexpectedEOF or a transport error, delivered on a separate read or together with the last data, with the gRPC HTTP trailers delivered or dropped; the terminal answers include HTTP/2 stream resets by the peer (NO_ERROR, CANCEL, ...). Further families: HTTPClient.Do failing before any response, the k-th ResponseWriter.Write failing (the failing Send must report it), the connection dying after k request bytes. A response cut before its terminator (status trailers, gRPC-Web trailer frame, Connect end-of-stream envelope, complete unary body) must fail the call with a coded non-OK error, the delivered messages must be a prefix of those sent, nothing may hang or panic, and the complete body must give the uncut outcome; a request body that failed or stopped inside an envelope must never give the handler a clean end of stream nor be answered OK.",
    "unary Connect bodies cut with a clean EOF are different complete bodies and are not judged; single-request kinds never read past their one envelope, so later failures are unobservable; write-side faults are covered through C14's transport events, not here"),
  "C17": ("model_checking", "DESIGN.md 4/C17",
    "bounded exhaustive enumeration of service descriptors (programs) through the built plugin binary, against a reference path/constructor model evaluated on the generated AST, with go/parser and the Go compiler as oracles",
